@@ -59,8 +59,83 @@ pub fn run(ctx: &Ctx) -> Report {
     run_scheds(ctx, &mut rep, &hs);
     short_writes(&mut rep);
     failed_roll_accounting(&mut rep);
+    failed_encode_accounting(&mut rep);
     rep.assume("nobody else writes to the log file; window of 2 archives (the roller itself is C07)");
     rep
+}
+
+/// writes the message; a message of the form "FAIL<k>:..." is cut after k bytes and the encoder returns an error
+#[derive(Debug)]
+struct FailingEncoder;
+
+impl log4rs::encode::Encode for FailingEncoder {
+    fn encode(&self, w: &mut dyn log4rs::encode::Write, record: &log::Record) -> anyhow::Result<()> {
+        let msg = format!("{}", record.args());
+        if let Some(rest) = msg.strip_prefix("FAIL") {
+            let k: usize = rest.split(':').next().and_then(|n| n.parse().ok()).unwrap_or(0);
+            w.write_all(&msg.as_bytes()[..k.min(msg.len())])?;
+            anyhow::bail!("encoder gave up after {} bytes", k);
+        }
+        w.write_all(msg.as_bytes())?;
+        Ok(())
+    }
+}
+
+/// An encoder that fails after it has written part of a record: those bytes are in the file (at the latest when the
+/// next record is flushed).  Every later consultation must still be shown the true size.
+fn failed_encode_accounting(rep: &mut Report) {
+    use std::sync::{atomic::AtomicBool, Arc, Mutex};
+    let mut runs = 0u64;
+    for append in [true, false] {
+        for limit in [60u64, 5000] {
+            for partial in [0usize, 5, 30, 1500] {
+                for fail_at in [0usize, 1, 2] {
+                    let w = World { append, trig: Trig::Size(limit), roller: RollerK::Fixed { base: 0, count: 2, ext: "" }, pre: None, sizes: vec![], multibyte: false, restart: false };
+                    let sb = crate::engine::sandbox::Sandbox::new();
+                    let consults = Arc::new(Mutex::new(vec![]));
+                    let armed = Arc::new(AtomicBool::new(false));
+                    let app = match crate::engine::catch_panic(|| w.build_appender_with(&sb, &consults, &armed, Box::new(FailingEncoder))) {
+                        Ok(Ok(a)) => a,
+                        Ok(Err(e)) => {
+                            rep.violation("failed-encode:build-failed", e, serde_json::json!({"kind": "failed-encode"}));
+                            continue;
+                        }
+                        Err(p) => {
+                            rep.violation(format!("failed-encode:panic-build:{}", crate::engine::panic_site(&p)), p, serde_json::json!({"kind": "failed-encode"}));
+                            continue;
+                        }
+                    };
+                    runs += 1;
+                    let mut history = vec![];
+                    for step in 0..6usize {
+                        let text = if step == fail_at { format!("FAIL{}:{}", partial, "x".repeat(1600)) } else { format!("<r{}:abcdefghijklmnopqrst>", step) };
+                        let r = crate::engine::catch_panic(|| {
+                            use log4rs::append::Append;
+                            app.append(&log::Record::builder().level(log::Level::Info).args(format_args!("{}", text)).build())
+                        });
+                        history.push(format!("append#{}={}", step, match &r { Ok(Ok(())) => "Ok".to_string(), Ok(Err(e)) => format!("Err({})", e), Err(p) => format!("panic({})", p) }));
+                        if let Err(p) = r {
+                            rep.violation(format!("failed-encode:panic:{}", crate::engine::panic_site(&p)), format!("{}: {:?}", w.describe(), history), serde_json::json!({"kind": "failed-encode"}));
+                            break;
+                        }
+                    }
+                    let cs = consults.lock().unwrap().clone();
+                    rep.add("traces_validated_against_impl", 1);
+                    for c in cs {
+                        if c.true_len.is_some() && c.true_len != Some(c.seen) {
+                            rep.violation(
+                                "failed-encode:size-accounting:len_estimate-differs-from-file-size",
+                                format!("[{}] encoder fails at record {} after {} bytes, {:?}: the policy was shown len_estimate()={} while the active file holds {:?} bytes", w.describe(), fail_at, partial, history, c.seen, c.true_len),
+                                serde_json::json!({"kind": "failed-encode"}),
+                            );
+                            break;
+                        }
+                    }
+                }
+            }
+        }
+    }
+    rep.add("failed_encode_histories", runs);
 }
 
 /// A roll that fails (a non-empty directory sits at the archive name) leaves the oversized file in place; the
@@ -167,6 +242,14 @@ pub fn replay(case: &serde_json::Value) -> Result<(), String> {
     if case["kind"] == "failed-roll" {
         let mut rep = Report::new("model_checking");
         failed_roll_accounting(&mut rep);
+        return match rep.violations().first() {
+            Some(v) => Err(format!("{}: {}", v.signature, v.detail)),
+            None => Ok(()),
+        };
+    }
+    if case["kind"] == "failed-encode" {
+        let mut rep = Report::new("model_checking");
+        failed_encode_accounting(&mut rep);
         return match rep.violations().first() {
             Some(v) => Err(format!("{}: {}", v.signature, v.detail)),
             None => Ok(()),
